@@ -86,6 +86,12 @@ func printStmt(b *strings.Builder, s *N, d int) {
 		b.WriteString("\n")
 	case "letidx":
 		b.WriteString(ExprString(s.Ns[0]) + "[" + ExprString(s.Ns[1]) + "] = " + ExprString(s.Ns[2]) + "\n")
+	case "opidx":
+		if len(s.Ns) == 2 {
+			b.WriteString(ExprString(s.Ns[0]) + "[" + ExprString(s.Ns[1]) + "]" + s.Ps[0] + s.Ps[0] + "\n")
+		} else {
+			b.WriteString(ExprString(s.Ns[0]) + "[" + ExprString(s.Ns[1]) + "] " + s.Ps[0] + "= " + ExprString(s.Ns[2]) + "\n")
+		}
 	case "letmem":
 		b.WriteString(ExprString(s.Ns[0]) + "." + s.S + " = " + ExprString(s.Ns[1]) + "\n")
 	case "var":
@@ -258,6 +264,14 @@ func ExprString(e *N) string {
 		return e.S
 	case "list":
 		return "[" + exprList(e.Ns) + "]"
+	case "tlist":
+		return "[]" + e.S + "{" + exprList(e.Ns) + "}"
+	case "tmap":
+		parts := []string{}
+		for i := 0; i+1 < len(e.Ns); i += 2 {
+			parts = append(parts, ExprString(e.Ns[i])+": "+ExprString(e.Ns[i+1]))
+		}
+		return "map[string]" + e.S + "{" + strings.Join(parts, ", ") + "}"
 	case "map":
 		parts := []string{}
 		for i := 0; i+1 < len(e.Ns); i += 2 {
